@@ -356,7 +356,18 @@ def main(argv):
 def run_check(prop, tier, seed, replay):
     pid = prop['id']
     t0 = time.time()
-    info = prepare()
+    try:
+        info = prepare()
+    except RuntimeError as e:
+        # the machinery no longer builds against /repo (the tree does not compile, or an internal
+        # interface the white-box harness uses has changed): the property is no longer shown to hold
+        os.makedirs(os.path.join(ROOT, 'replays'), exist_ok=True)
+        rp = os.path.join(ROOT, 'replays', '%s-%d-unchecked.json' % (pid, seed))
+        json.dump(dict(property=pid, kind='unchecked-obligation', seed=seed,
+                       correspondence='the harness / model could not be built against /repo', error=str(e)[-3000:]), open(rp, 'w'), indent=1)
+        print('VIOLATION property=%s replay=%s no-failing-input-found' % (pid, rp))
+        log(str(e)[-1500:])
+        return 1
     work = os.path.join(BUILD, 'work', '%s-%d' % (pid, os.getpid()))
     shutil.rmtree(work, ignore_errors=True); os.makedirs(work)
     try:
